@@ -147,7 +147,7 @@ def coqc(path, extra_dirs=(), timeout=None):
     return p.returncode == 0, p.stdout + p.stderr, time.time() - t
 
 
-def ensure_static_built():
+def ensure_static_built(needed=None):
     """(Re)build Lib/ and Model/ with make (incremental, under a lock so that concurrent checks do
     not race).  _CoqProject is regenerated from the files present."""
     import fcntl
@@ -163,7 +163,14 @@ def ensure_static_built():
         if not mk.exists() or mk.stat().st_mtime < cp.stat().st_mtime:
             subprocess.run(["coq_makefile", "-f", "_CoqProject", "-o", "Makefile"], cwd=str(COQ), check=True,
                            capture_output=True)
-        p = subprocess.run(["timeout", "3000", "make", "-k", "-j8"], cwd=str(COQ), capture_output=True, text=True)
+        # build only what this check depends on (a slow or broken file of another property must not block us),
+        # each file under its own time limit
+        goals = []
+        if needed is not None:
+            goals = [str(pathlib.Path(f).relative_to(COQ))[:-2] + ".vo" for f in needed
+                     if pathlib.Path(f).parent.name in ("Lib", "Model")]
+        p = subprocess.run(["timeout", "3000", "make", "-k", "-j8", f"COQC=timeout {COQ_TIMEOUT} coqc"] + goals,
+                           cwd=str(COQ), capture_output=True, text=True)
         return p.returncode == 0, (p.stdout + p.stderr)[-3000:]
 
 
